@@ -252,6 +252,22 @@ Styled == <<
   [text |-> "schema: '1.2'\ncontents:\n  - &l [a.fga]\n  - *l\n",                            ok |-> FALSE, values |-> <<>>, nerr |-> 2],
   [text |-> "schema: &s '1.2'\ncontents:\n  - *s\n",                                         ok |-> FALSE, values |-> <<>>, nerr |-> 1],
   [text |-> "schema: '1.2'\ncontents: &c\n  - a.fga\nextra: *c\n",                           ok |-> TRUE,  values |-> <<"a.fga">>, nerr |-> 0] >>
+\* Texts that are not YAML: the syntax error stands inside the manifest or after it (behind the end of a flow mapping, behind a
+\* document end marker, in a second document). C08: a syntax error in the input is always reported through the returned error.
+Broken == <<
+  "{schema: '1.2', contents: [a.fga]} trailing",
+  "{schema: '1.2', contents: [a.fga]}\n]",
+  "schema: '1.2'\ncontents:\n  - a.fga\n---\n{ unclosed",
+  "schema: '1.2'\ncontents:\n  - a.fga\n---\n- [a",
+  "schema: '1.2'\ncontents:\n  - a.fga\n...\n}}}",
+  "schema: '1.2'\ncontents:\n  - a.fga\n  - [b.fga\n",
+  "schema: '1.2'\ncontents:\n  - a.fga\n\t- b.fga\n",
+  "schema: '1.2'\ncontents: [a.fga\n",
+  "schema: '1.2\ncontents:\n  - a.fga\n",
+  "schema: '1.2'\ncontents:\n  - a.fga\n---\nschema: \"1.2\ncontents: []\n" >>
+BrokenInit == st \in 1..Len(Broken)
+BrokenNext == st > 0 /\ st' = 0 - st /\ PrintT(ToJson([rec |-> "broken", text |-> Broken[st], ok |-> FALSE]))
+BrokenOK == TRUE
 StyledInit == st \in 1..Len(Styled)
 StyledNext == st > 0 /\ st' = 0 - st /\ PrintT(ToJson([rec |-> "styled"] @@ Styled[st]))
 StyledOK == TRUE
